@@ -31,10 +31,12 @@ class Site:
 class Gap(Site):
     OPT = ['', ' ', '\n', '\t\r\n\f ', '/*c*/', ' /*c*/ ']
     REQ = [' ', '\n', '\t\r\n\f ', ' /*c*/ ', '/*c*/ ', ' /*c*/']
+    # between two components of a value a comment alone separates as well (both are tokens of their own)
+    VAL = REQ + ['/*c*/']
 
     def __init__(self, k, comment=True):
         self.k = k
-        base = self.OPT if k == 'O' else self.REQ
+        base = self.OPT if k == 'O' else self.VAL if k == 'V' else self.REQ
         self.choices = base if comment else [c for c in base if '/*' not in c]
         self.kind = 'gap' + k
 
@@ -111,6 +113,7 @@ class Mark:
 
 O = lambda: Gap('O')  # noqa: E731
 R = lambda: Gap('R')  # noqa: E731
+V = lambda: Gap('V')  # noqa: E731
 
 
 class Node:
@@ -261,10 +264,14 @@ def declarations():
     d('width:calc(2px*3)', 'width', [Word('calc', simple=False), '(', O(), '2px', O(), '*', O(), '3', O(), ')'],
       (('calc', (_num('2', 'px'), ('op', '*'), _num('3'))),))
     d('unicode-range:U+1-FF', 'unicode-range', ['U+1-FF'], (('urange', 'u+1-ff'),))
-    d('margin:0 1px', 'margin', ['0', R(), '1px'], (_num('0'), _num('1', 'px')))
+    d('margin:0 1px', 'margin', ['0', V(), '1px'], (_num('0'), _num('1', 'px')))
     d('font-family:a,b', 'font-family', ['a', O(), ',', O(), 'b'], (('ident', 'a'), ('op', ','), ('ident', 'b')))
-    d('font:12px/1.5 a', 'font', ['12px', O(), '/', O(), '1.5', R(), 'a'], (_num('12', 'px'), ('op', '/'), _num('1.5'), ('ident', 'a')))
-    d('margin:0 1px,2em', 'margin', ['0', R(), '1px', O(), ',', O(), '2em'], (_num('0'), _num('1', 'px'), ('op', ','), _num('2', 'em')))
+    d('font:12px/1.5 a', 'font', ['12px', O(), '/', O(), '1.5', V(), 'a'], (_num('12', 'px'), ('op', '/'), _num('1.5'), ('ident', 'a')))
+    d('margin:0 1px,2em', 'margin', ['0', V(), '1px', O(), ',', O(), '2em'], (_num('0'), _num('1', 'px'), ('op', ','), _num('2', 'em')))
+    # (white space in front of the operator written out: one deviation at the gap in front of it is then enough to have two components
+    # separated by a comment only *and* a blank in front of the operator)
+    d('margin:0 1px ,2em', 'margin', ['0', V(), '1px', ' ', ',', O(), '2em'], (_num('0'), _num('1', 'px'), ('op', ','), _num('2', 'em')))
+    d('font:12px a / 1.5', 'font', ['12px', V(), 'a', '\n', '/', O(), '1.5'], (_num('12', 'px'), ('ident', 'a'), ('op', '/'), _num('1.5')))
     d('x:1!important', 'x', ['1'], (_num('1'),), prio='important')
     return D
 
